@@ -151,3 +151,20 @@ Definition loop_exits_with_cache (f : fn_def) : bool :=
 
 Lemma reloader_loop_exits_with_its_cache : loop_exits_with_cache hot_reloading_thread = true.
 Proof. vm_compute. reflexivity. Qed.
+
+(* the two channels of the reloader are unbounded: sending a cache message (also by the reloader
+   itself, when a reload loads an asset for the first time) or an event never blocks -- the mailbox
+   proof's producers and consumers make progress on their own *)
+Definition creates_unbounded (tx rx : string) (f : fn_def) : bool :=
+  Nat.eqb (List.length (filter (fun e => match e with
+                                         | ELetS (PTuple [PIdent a None; PIdent b None]) (Some (ECall (EPath ["channel"; "unbounded"]) [])) None =>
+                                           String.eqb a tx && String.eqb b rx
+                                         | _ => false end) (fn_body f))) 1
+  && negb (existsb (fun e => match e with
+                             | ECall (EPath ["channel"; k]) _ => negb (String.eqb k "unbounded")
+                             | _ => false end) (flat_map (subexprs depth_fuel) (fn_body f))).
+
+Lemma reloader_channels_never_block_senders :
+  creates_unbounded "cache_msg_tx" "cache_msg_rx" HotReloader_start = true /\
+  creates_unbounded "events_tx" "events_rx" HotReloader_make = true.
+Proof. vm_compute. split; reflexivity. Qed.
